@@ -9,7 +9,7 @@ from .model import FuncInfo
 from .regions import IV, UNIT, hull
 from .values import (SymNum, ComplexVal, Maybe, Obj, ExcObj, ClassRef, BuiltinType, ModRef,
                      ExtRef, BoundMethod, NativeMethod, Closure, SuperProxy, HashVal,
-                     RegexObj, Builtin, OneShot)
+                     RegexObj, Builtin, OneShot, ForeignReflecting)
 
 _BIN_DUNDER = {"Add": "add", "Sub": "sub", "Mult": "mul", "Div": "truediv", "Pow": "pow",
                "Mod": "mod", "FloorDiv": "floordiv", "MatMult": "matmul", "BitAnd": "and",
@@ -46,6 +46,8 @@ class OpsMixin:
                 r = self.call_function(fi, [a, b], {})
                 if not (isinstance(r, Builtin) and r.name == "NotImplemented"):
                     return r
+        if isinstance(b, ForeignReflecting):
+            return f"<result of the foreign operand's reflected {opname}>"
         if isinstance(b, Obj):
             fi = self.model.resolve_method(b.cls, f"__r{_BIN_DUNDER[opname]}__")
             if fi is not None:
@@ -1065,6 +1067,15 @@ class OpsMixin:
             return Maybe(f"isclose({a!r}, {b!r})")
         if fn in ("fabs",):
             return self.call_builtin("abs", [self._real(args[0], fn)], {})
+        if fn in ("fmod", "remainder"):
+            a, b = self._real(args[0], fn), self._real(args[1], fn)
+            if a.conc is not None and b.conc is not None:
+                if b.conc == 0:
+                    self.raise_builtin("ValueError", "math domain error")
+                return SymNum.of(getattr(math, fn)(a.conc, b.conc))
+            # x - y * trunc(x / y): a piecewise function of the inputs (kept opaque through the quantisation)
+            q = self.quantise(self.num_binop("Div", a, b), "trunc" if fn == "fmod" else "round")
+            return self.num_binop("Sub", a, self.num_binop("Mult", b, q))
         if fn == "modf":
             v = args[0]
             if isinstance(v, int):          # math.modf converts an int to a C double first
